@@ -318,7 +318,7 @@ pub fn run_c03(plan: &Plan, keep_trace: bool) -> RunReport {
                 if bad_clock {
                     calm.clock = vec![1_700_000_000_123_456_789];
                 }
-                if calm.host == "err" || calm.host == "ok:No/Such_Zone" {
+                if crate::gen::Gen::is_world_fault(&calm) {
                     calm.host = "ok:UTC".into();
                 }
             }
